@@ -923,6 +923,13 @@ func (in *Interp) apply(x *ast.CallExpr, callee string, obj types.Object, recv V
 			fv = Closure{Lit: core.Unparen(x.Fun)}
 		}
 	}
+	if fv == nil && obj != nil && in.Hooks.FreeClosure != nil {
+		if v, ok := obj.(*types.Var); ok {
+			if lit := in.Hooks.FreeClosure(v); lit != nil {
+				fv = Closure{Lit: lit}
+			}
+		}
+	}
 	if cl, ok := fv.(Closure); ok {
 		lit := cl.Lit.(*ast.FuncLit)
 		return in.inline(lit.Type, nil, lit.Body, nil, args, st, x, info)
